@@ -47,22 +47,22 @@ package pflag
 
 // The callback handed to pflag.FlagSet.Visit: free variable s (the Set), parameter f (the visited flag).  What
 // registerFlags is relied upon to have arranged is stated as rely_ preconditions (it is not under contract).
-//@ macro theSet(s Ref) *Set = as(cell(s, "Ref"), "*Set")
+//@ macro thePSet(s Ref) *Set = as(cell(s, "Ref"), "*Set")
 //@ macro pflagFits(gt RType, ft RType) bool = (gt == elem(ft) && kind(ft) == Ptr) || (gt == ft && gt != elem(ft)) || (gt == ptrTo(ft) && gt != ft && gt != elem(ft))
 //@      || (kind(gt) == Ptr && kind(ft) == Ptr && elem(gt) != nil && convertible(elem(gt), elem(ft)))
 //@ func pflag.(*Set).Value$2(s, f)
 //@   props C12
 //@   safety C16
 //@   flag panics_ok
-//@   requires s != nil && f != nil && theSet(s) != nil
-//@   requires valid(theSet(s).trnslVal) && kind(vtype(theSet(s).trnslVal)) == Struct && canSet(theSet(s).trnslVal) && canAddr(theSet(s).trnslVal)
-//@   requires rely_registered_names_are_fields_of_the_translated_struct: forall n Str :: {mget(theSet(s).flagFieldName, n)} mhas(theSet(s).flagFieldName, n) ==>
-//@        fieldIndex(vtype(theSet(s).trnslVal), mget(theSet(s).flagFieldName, n)) >= 0 && isExported(mget(theSet(s).flagFieldName, n))
-//@   requires rely_translated_fields_are_nilable: forall k int :: {fType(vtype(theSet(s).trnslVal), k)} 0 <= k && k < numField(vtype(theSet(s).trnslVal)) ==>
-//@        (kind(fType(vtype(theSet(s).trnslVal), k)) == Ptr || kind(fType(vtype(theSet(s).trnslVal), k)) == Slice || kind(fType(vtype(theSet(s).trnslVal), k)) == Map)
-//@        && elem(fType(vtype(theSet(s).trnslVal), k)) != nil
-//@   requires rely_registered_flag_values_fit_their_fields: forall n Str, k int :: {mget(theSet(s).flagValues, n), fType(vtype(theSet(s).trnslVal), k)} mhas(theSet(s).flagValues, n) && 0 <= k && k < numField(vtype(theSet(s).trnslVal)) ==>
-//@        valid(mget(theSet(s).flagValues, n)) && vtype(mget(theSet(s).flagValues, n)) != nil && !visnil(mget(theSet(s).flagValues, n))
-//@        && pflagFits(vtype(mget(theSet(s).flagValues, n)), fType(vtype(theSet(s).trnslVal), k))
+//@   requires s != nil && f != nil && thePSet(s) != nil
+//@   requires valid(thePSet(s).trnslVal) && kind(vtype(thePSet(s).trnslVal)) == Struct && canSet(thePSet(s).trnslVal) && canAddr(thePSet(s).trnslVal)
+//@   requires rely_registered_names_are_fields_of_the_translated_struct: forall n Str :: {mget(thePSet(s).flagFieldName, n)} mhas(thePSet(s).flagFieldName, n) ==>
+//@        fieldIndex(vtype(thePSet(s).trnslVal), mget(thePSet(s).flagFieldName, n)) >= 0 && isExported(mget(thePSet(s).flagFieldName, n))
+//@   requires rely_translated_fields_are_nilable: forall k int :: {fType(vtype(thePSet(s).trnslVal), k)} 0 <= k && k < numField(vtype(thePSet(s).trnslVal)) ==>
+//@        (kind(fType(vtype(thePSet(s).trnslVal), k)) == Ptr || kind(fType(vtype(thePSet(s).trnslVal), k)) == Slice || kind(fType(vtype(thePSet(s).trnslVal), k)) == Map)
+//@        && elem(fType(vtype(thePSet(s).trnslVal), k)) != nil
+//@   requires rely_registered_flag_values_fit_their_fields: forall n Str, k int :: {mget(thePSet(s).flagValues, n), fType(vtype(thePSet(s).trnslVal), k)} mhas(thePSet(s).flagValues, n) && 0 <= k && k < numField(vtype(thePSet(s).trnslVal)) ==>
+//@        valid(mget(thePSet(s).flagValues, n)) && vtype(mget(thePSet(s).flagValues, n)) != nil && !visnil(mget(thePSet(s).flagValues, n))
+//@        && pflagFits(vtype(mget(thePSet(s).flagValues, n)), fType(vtype(thePSet(s).trnslVal), k))
 //@   modifies rh
-//@   ensures C12_C18_a_visited_flag_sets_its_leaf: mhas(theSet(s).flagFieldName, f.Name) && mhas(theSet(s).flagValues, f.Name) ==> rh > old(rh)
+//@   ensures C12_C18_a_visited_flag_sets_its_leaf: mhas(thePSet(s).flagFieldName, f.Name) && mhas(thePSet(s).flagValues, f.Name) ==> rh > old(rh)
